@@ -47,18 +47,56 @@ def rleaf_typed(r):
     return rnum(r, parsed=False)
 
 
+def related(r, p):
+    """a path next to `p`: a child, the parent, a sibling or `p` itself"""
+    ks = p.split(b"/")
+    k = r.random()
+    if k < 0.45:
+        return p + b"/" + r.choice(KEYS)
+    if k < 0.6 and len(ks) > 1:
+        return b"/".join(ks[:-1])
+    if k < 0.8:
+        return b"/".join(ks[:-1] + [r.choice(KEYS)])
+    return p
+
+
+def probes(r, h, p):
+    """reads around a path that was just written / touched / removed"""
+    if r.random() < 0.6:
+        h.append("has " + hx(related(r, p)))
+    if r.random() < 0.4:
+        h.append("rc " + hx(related(r, p)))
+
+
 def gen_history(r, thorough=False):
     h = []
     if r.random() < 0.6:
         h.append("new " + " ".join(rvalue(r, 3)))
-    for _ in range(r.randint(8, 40 if thorough else 28)):
+    for _ in range(r.randint(8, 40 if thorough else 24)):
         k = r.random()
+        if r.random() < 0.05:
+            # an object overwritten by a leaf (typed or json assignment), then read below it
+            p, c = rpath(r, odd=0.0), r.choice(KEYS)
+            h.append("w %s O2 %s %s %s O1 %s Z" % (hx(p), hx(c), rleaf_typed(r), hx(r.choice(KEYS)), hx(c)))
+            h.append(("wt %s %s" % (hx(p), rleaf_typed(r))) if r.random() < 0.6 else ("w %s %s" % (hx(p), rleaf_typed(r))))
+            h.append("has %s" % hx(p + b"/" + c))
+            h.append("rc %s" % hx(p + b"/" + c))
+            if r.random() < 0.5:
+                h.append("setat %s %s %s" % (hx(p), hx(r.choice(KEYS)), rleaf_typed(r)))
+                h.append("show")
+            continue
         if k < 0.16:
-            h.append("w %s %s" % (hx(rpath(r)), " ".join(rvalue(r))))
+            p = rpath(r)
+            h.append("w %s %s" % (hx(p), " ".join(rvalue(r))))
+            probes(r, h, p)
         elif k < 0.22:
-            h.append("wt %s %s" % (hx(rpath(r)), rleaf_typed(r)))
+            p = rpath(r)
+            h.append("wt %s %s" % (hx(p), rleaf_typed(r)))
+            probes(r, h, p)
         elif k < 0.28:
-            h.append("touch " + hx(rpath(r)))
+            p = rpath(r)
+            h.append("touch " + hx(p))
+            probes(r, h, p)
         elif k < 0.38:
             h.append("rc " + hx(rpath(r)))
         elif k < 0.46:
@@ -70,7 +108,9 @@ def gen_history(r, thorough=False):
         elif k < 0.60:
             h.append(r.choice(["size", "sizeat " + hx(rpath(r)), "keys"]))
         elif k < 0.67:
-            h.append("rm " + hx(rpath(r)))
+            p = rpath(r)
+            h.append("rm " + hx(p))
+            probes(r, h, p)
         elif k < 0.73:
             key = r.choice(KEYS + ODD_KEYS) if r.random() < 0.5 else r.choice(KEYS)
             h.append("set %s %s" % (hx(key), " ".join(rvalue(r))))
@@ -136,7 +176,7 @@ def main(argv):
     if ck.replay:
         hs = [read_replay(ck.replay)]
     else:
-        n = 1200 if ck.tier == "quick" else 6000
+        n = 1000 if ck.tier == "quick" else 6000
         hs = CORPUS + [gen_history(ck.rng, ck.tier == "thorough") for _ in range(n)]
     ck.correspond(hb, db, hs, label="jsonpath", ubsan_is_violation=r"types/json\.|utils/lex\.",
                   nontrivial=lambda h, obs: any(o == "ok" for o in obs))
